@@ -263,7 +263,7 @@ def run_apply(E, case):
             sel = [codes[i] >= 0 and (mbits is None or mbits[i]) for i in range(N)]
             groups = [g for g in (order or range(G)) if any(sel[i] and codes[i] == g for i in range(N))]
             bl = []
-            if aliased:
+            if aliased and case.get("via") != "median":          # np.median is not user code and does not write
                 bl.append(("the user function is handed an array that aliases caller-owned storage (C19)", True))
             if case.get("transform"):
                 arr = series[0].arr if isinstance(series[0], FakeSeries) else series[0]
@@ -811,9 +811,15 @@ def replay(case, conc, cand=None):
             vals = real_np.array([float(x) for x in conc["v0_"]])
             mask = real_np.array(case["mask"], dtype=bool) if case.get("mask") is not None else None
 
+            shared_t = []
+
             def f(a):
+                if real_np.shares_memory(a, vals):
+                    shared_t.append(True)
                 return float(real_np.sum(a * real_np.arange(1, len(a) + 1)))
             out = real_np.asarray(gb.apply(vals, f, mask, True), dtype=float)
+            if shared_t:
+                return True, {"problem": "the user function received a view of the caller's values array (an in-place callback would modify the input)", "codes": codes}
             sel = [codes[i] >= 0 and (mask is None or mask[i]) for i in range(N)]
             bad = []
             for i in range(N):
